@@ -272,8 +272,8 @@ def run(ctx):
         groups.setdefault(key, []).append(f)
     # re-runs (reproduction rate) and shrinking are bounded by a time budget: a deadlock costs a
     # whole watchdog period per run
-    budget = 600 if ctx.tier == "thorough" else 0
-    rerun_until = time.time() + (480 if ctx.tier == "thorough" else 30)
+    budget = 150 if ctx.tier == "thorough" else 0
+    rerun_until = time.time() + (150 if ctx.tier == "thorough" else 30)
     reps = 8 if ctx.tier == "thorough" else 2
     for gi, (key, fs) in enumerate(sorted(groups.items())):
         first = fs[0]
@@ -286,7 +286,7 @@ def run(ctx):
             extra["rerun"] = {"failing": bad, "runs": tot, "lines": text[:1500]}
             if bad and budget > 0 and len(scenario["threads"]) > 2:
                 t0 = time.time()
-                small = _shrink(ctx, scenario, min(budget, 200), "g%d" % gi)
+                small = _shrink(ctx, scenario, min(budget, 90), "g%d" % gi)
                 budget -= time.time() - t0
                 if len(small["threads"]) < len(scenario["threads"]):
                     extra["minimised_from_threads"] = len(scenario["threads"])
